@@ -571,6 +571,8 @@ def limits(S):
     outside the round-trip guarantee (id wrap, odd characters, missing element)."""
     hard, soft = [], []
     f = S["flags"]
+    if not S["atoms"]:
+        hard.append("no-atoms")
     for i, a in enumerate(S["atoms"]):
         for key, lo, hi in (("name", 0, 4), ("res", 0, 3), ("chain", 0, 1), ("ins", 0, 1), ("el", 0, 2)):
             if len(a[key]) > hi:
@@ -691,8 +693,19 @@ def oracle(case):
         try:
             f.set_structure(build_array(S, extra), hybrid36=S["flags"]["h36"])
         except Exception as e:  # noqa: BLE001
-            if not hard and not soft:
-                v.append(("C07/refused/within-limits", f"{type(e).__name__}: {e} for a structure within the PDB limits"))
+            cls = type(e).__name__
+            if not hard:
+                # inside the column limits (id wrap, odd characters, empty element, degenerate box included): no refusal allowed
+                v.append(("C07/refused/within-limits" if not soft else f"C07/refused/{soft[0]}",
+                          f"{cls}: {e} for a structure within the PDB limits ({soft})"))
+            else:
+                allowed = {"BadStructureError"}
+                if any(h.endswith("outside-hybrid36") for h in hard):
+                    allowed |= {"ValueError", "OverflowError"}      # raised by encode_hybrid36
+                if "no-atoms" in hard:
+                    allowed |= {"ValueError"}                        # NumPy refuses empty character arrays
+                if cls not in allowed:
+                    v.append((f"C07/refused/wrong-error-class/{hard[0]}", f"{cls}: {e}; the documented refusal for {hard} is {sorted(allowed)}"))
             return v + _oracle_refused_write(S, extra)
         recs = [l for l in f.lines if l.startswith(("ATOM", "HETATM"))]
         n = len(S["atoms"])
@@ -747,11 +760,12 @@ def oracle(case):
                     rs = _h36_dec_ref(_col(line, "resSeq"))
                     sr = _h36_dec_ref(_col(line, "serial"))
                     aid = a["id"] if S["flags"]["id"] else r_i % n + 1
-                    if not any(s.endswith("wraps") for s in soft):
-                        if rs != a["resid"]:
-                            tag = tag or "resSeq-column"
-                        if sr != aid:
-                            tag = tag or "serial-column"
+                    def wrapped(x, mx):
+                        return x if (S["flags"]["h36"] or x <= 0) else (x - 1) % mx + 1      # "will be wrapped"
+                    if rs != wrapped(a["resid"], 9999):
+                        tag = tag or "resSeq-column"
+                    if sr != wrapped(aid, 99999):
+                        tag = tag or "serial-column"
                     ch = _col(line, "charge")
                     q = a["q"] if S["flags"]["q"] else 0
                     if (ch.strip() == "" and q != 0) or (ch.strip() and int(ch[::-1] if ch[0] not in "+-" else ch) != q):
@@ -799,10 +813,15 @@ def oracle(case):
                             bad = bad or f"coord model {m} atom {i}"
             if S["flags"]["bonds"] and not bad:
                 ids = [a["id"] if S["flags"]["id"] else i + 1 for i, a in enumerate(S["atoms"])]
-                if all(x > 0 for x in ids) and len(set(ids)) == len(ids):
-                    got = {(int(min(x, y)), int(max(x, y))) for x, y, _ in st.bonds.as_array()}
+                got = {(int(min(x, y)), int(max(x, y))) for x, y, _ in st.bonds.as_array()}
+                if len(set(ids)) == len(ids):
                     if got != carriable_ref(S):
                         bad = f"bonds {sorted(got)} != {sorted(carriable_ref(S))}"
+                else:
+                    # duplicate atom ids: CONECT can only name ids -- the bonds must survive at the level of ids
+                    as_ids = lambda bs: {tuple(sorted((ids[i], ids[j]))) for i, j in bs}      # noqa: E731
+                    if as_ids(got) != as_ids(carriable_ref(S)):
+                        bad = f"bonds (as atom ids) {sorted(as_ids(got))} != {sorted(as_ids(carriable_ref(S)))}"
             if S.get("box") is not None and not bad:
                 if st.box is None:
                     bad = "box lost"
@@ -1464,10 +1483,25 @@ def _ids(rng, h36, w, n, increasing, ok=True):
 
 def gen_struct(rng, malformed=None):
     n = rng.choice([1, 1, 2, 3, 4, 6, 9, 12])
+    if malformed == "empty":
+        n = 0
     nm = rng.choice([1, 1, 1, 2, 3])
     f = {"h36": rng.random() < 0.35, "id": rng.random() < 0.5, "b": rng.random() < 0.6, "occ": rng.random() < 0.5,
          "q": rng.random() < 0.5, "bonds": rng.random() < 0.4}
     aids = _ids(rng, f["h36"], 5, n, increasing=f["bonds"] or rng.random() < 0.5)
+    if f["bonds"] and n > 1:
+        r = rng.random()
+        if r < 0.12 and not f["h36"]:
+            start = rng.choice([-9999, -5, -n, -1])                 # increasing, starting below zero
+            aids = [start + i for i in range(n)]
+        elif r < 0.24:
+            aids = rng.sample(range(1, 90000), n)                     # unique, unsorted
+            if rng.random() < 0.7:
+                aids[-1] = max(aids) + 1                              # the reader needs the largest id last
+        elif r < 0.32:
+            aids = sorted(rng.choice(range(1, 4 + n // 2)) for _ in range(n))      # duplicates
+        if r < 0.32:
+            f["id"] = True
     same_res = rng.random() < 0.5
     rids = _ids(rng, f["h36"], 4, n, increasing=False)
     atoms = []
@@ -1488,6 +1522,8 @@ def gen_struct(rng, malformed=None):
     S = {"atoms": atoms, "models": models, "bonds": bonds, "flags": f}
     if rng.random() < 0.35 or malformed == "box":
         S["box"] = gen_box(rng, ok=malformed != "box")
+    if malformed == "empty":
+        return S
     if malformed:
         a = rng.choice(atoms)
         if malformed == "name":
@@ -1538,7 +1574,7 @@ def gen_struct(rng, malformed=None):
     return S
 
 
-MALFORMED = ["name", "res", "chain", "ins", "el", "coord", "coord", "bf", "occ", "q", "resid", "resid", "atomid", "atomid", "box", "box", "nonfinite", "nonfinite", "nonfinite"]
+MALFORMED = ["name", "res", "chain", "ins", "el", "coord", "coord", "bf", "occ", "q", "resid", "resid", "atomid", "atomid", "box", "box", "nonfinite", "nonfinite", "nonfinite", "empty"]
 
 
 def pdb_line(rng, rec):
